@@ -116,3 +116,45 @@ def stores_to(fnode: ast.AST, name: str) -> List[ast.AST]:
                 if isinstance(x, ast.Name) and x.id == name and isinstance(x.ctx, ast.Store):
                     out.append(n)
     return out
+
+
+# parameter rebindings that exist in the package today, each read and confirmed harmless for the rules (default / normalisation idioms)
+PARAM_REBIND_OK = {
+    ("Alignment.check", "continuum"): {"continuum = self.continuum"},
+    ("SoftAlignment.check", "continuum"): {"continuum = self.continuum"},
+    ("Continuum.from_csv", "path"): {"path = Path(path)"},
+    ("Continuum.to_csv", "path"): {"path = Path(path)"},
+    ("Continuum.compute_gamma", "dissimilarity"): {"dissimilarity = CombinedCategoricalDissimilarity()"},
+    ("Continuum.compute_gamma", "precision_level"): {"precision_level = PRECISION_LEVEL[precision_level]"},
+    ("Continuum.compute_gamma", "sampler"): {"sampler = StatisticalContinuumSampler()"},
+    ("CorpusShufflingTool.corpus_from_reference", "new_annotators"): {"new_annotators = [f'annotator_{i}' for i in range(new_annotators)]"},
+    ("OrdinalCategoricalDissimilarity.__init__", "labels"): {"labels = np.array(labels, dtype=str)"},
+    ("OrdinalCategoricalDissimilarity.__init__", "p"): {"p = np.arange(len(labels), dtype=np.float32)"},
+    ("CombinedCategoricalDissimilarity.__init__", "pos_dissim"): {"pos_dissim = PositionalSporadicDissimilarity(delta_empty)"},
+    ("CombinedCategoricalDissimilarity.__init__", "cat_dissim"): {"cat_dissim = AbsoluteCategoricalDissimilarity(delta_empty)"},
+    ("ShuffleContinuumSampler._random_from_segments", "segments"): {"segments = np.array(segments)"},
+}
+
+
+def check_params_stable(ctx: Ctx, rule: str = "R-PARAMS"):
+    """closedness guard: the role-based rules read parameters by name, so a function they analysed must not rebind one
+    (beyond the listed default/normalisation idioms).  A new rebinding is reported UNDECIDED: it is not a defect by itself,
+    but the rules' reading of that parameter is no longer justified."""
+    M = ctx.model
+    n = 0
+    for qn in sorted(ctx.functions_analysed):
+        f = M.functions.get(qn)
+        if f is None or isinstance(f.node, ast.Lambda):
+            continue
+        for prm in f.params:
+            for st in stores_to(f.node, prm):
+                n += 1
+                txt = norm(st)
+                if isinstance(st, (ast.For, ast.With)):
+                    txt = norm(st)[:80]
+                if txt in PARAM_REBIND_OK.get((qn, prm), ()):
+                    ctx.ok(rule, f, st, f"listed idiom: parameter `{prm}` is given its default / normalised form", key=f"{prm}")
+                else:
+                    ctx.undecided(rule, f, st, f"parameter `{prm}` is rebound by `{txt[:100]}`: the rules of this property read `{prm}` as the caller's value; "
+                                  f"confirm the new meaning and list the idiom (not a verdict on the repository)", key=f"{prm}")
+    return n
